@@ -341,7 +341,12 @@ def extract(d, repo, write=True):
         if v["class"] not in TRANSIENT_CLASSES:
             problems.append("ref/C05_transient.json: unknown class %s for %s" % (v["class"], p_))
     stale = [p_ for p_ in tj if p_ not in by_path]
-    info = {"rows": rows, "members": simmembers, "elems": elems, "specs": specs, "wallprefix": wallprefix,
+    osrc = strip_c_comments(open(os.path.join(repo, "src", "output.c")).read())
+    fm = re.search(r"int\s+functionpointersused\s*=\s*0\s*;\s*if\s*\((.*?)\)\s*\{", osrc, flags=re.S)
+    fp_members = re.findall(r"r->([\w.]+)", fm.group(1)) if fm else []
+    if not fp_members:
+        problems.append("function-pointer flag condition of reb_simulation_save_to_stream not found")
+    info = {"fp_members": fp_members, "rows": rows, "members": simmembers, "elems": elems, "specs": specs, "wallprefix": wallprefix,
             "sizes": sizes, "psz": psz, "transient": tj, "stale_transient": stale, "problems": problems,
             "by_path": by_path}
     if write:
